@@ -1465,3 +1465,40 @@ twin('C14', 'referencesf-branches-reordered', SERPY, 'referencesf',
         elif isinstance(reference, tuple):
             oid = reference[0]
         else:''')
+
+# ---------------------------------------------------------------- C15
+DBPY = 'ZODB/DB.py'
+breaker('C15', 'historical-load-maxtid', 'C15.R1', MVCCPY,
+        'HistoricalStorageAdapter.load',
+        'r = self._storage.loadBefore(oid, self._before)',
+        'r = self._storage.loadBefore(oid, maxtid)')
+breaker('C15', 'historical-bound-moves', 'C15.R1', MVCCPY,
+        'HistoricalStorageAdapter.sync',
+        '''        pass''', '''        if force:
+            self._before = self._storage.lastTransaction()''')
+breaker('C15', 'historical-forwards-store', 'C15.R2', MVCCPY,
+        'HistoricalStorageAdapter',
+        "'loadSerial', 'tpc_begin', 'tpc_finish', 'tpc_abort', 'tpc_vote',",
+        "'loadSerial', 'tpc_begin', 'tpc_finish', 'tpc_abort', 'tpc_vote', 'storeBlob',")
+breaker('C15', 'historical-store-not-stub', 'C15.R2', MVCCPY,
+        'HistoricalStorageAdapter',
+        'new_oid = pack = store = read_only_writer',
+        'new_oid = pack = read_only_writer')
+breaker('C15', 'commit-no-history-check', 'C15.R3', CONNPY, 'Connection._commit',
+        '''        if self.before is not None:
+            raise ReadOnlyHistoryError()
+''', '')
+breaker('C15', 'at-not-advanced', 'C15.R4', DBPY, 'getTID',
+        'before = at.laterThan(at).raw()', 'before = at.raw()')
+breaker('C15', 'future-check-dropped', 'C15.R4', DBPY, 'DB.open',
+        '''        if (before is not None and
+            before > self.lastTransaction() and
+                before > getTID(self.lastTransaction(), None)):
+            raise ValueError(
+                'cannot open an historical connection in the future.')
+''', '')
+twin('C15', 'historical-load-rename', MVCCPY, 'HistoricalStorageAdapter.load',
+     '''        r = self._storage.loadBefore(oid, self._before)
+        if r is None:''', '''        storage = self._storage
+        r = storage.loadBefore(oid, self._before)
+        if r is None:''')
